@@ -133,7 +133,7 @@ def run_case(rs, ctx):
     kind = gen.CF_KINDS[ctx.index % 6]
     labels = ["int", "str", "float", "negint"][(ctx.index // 6) % 4]
     nj = int(gen.pick(rs, [1, 1, 1, 2, 3, -1]))
-    cfg = gen.gen_cfg(rs, kind, "none", labels=labels, n_arms=int(gen.pick(rs, [1, 2, 3, 4, 5, 6, 2, 3, 4, 12, 19])), n_jobs=nj,
+    cfg = gen.gen_cfg(rs, kind, "none", labels=labels, n_arms=int(gen.pick(rs, [1, 2, 3, 4, 5, 6, 2, 3, 4, 12, 19, 0])), n_jobs=nj,
                       backend="threading" if nj != 1 and rs.integers(2) else None)
     if (ctx.index // 6) % 27 == 5 and cfg.get("reward_stress") in (4, 5):
         # the 2^20-row batch of this case would push the sums of the 2^33 + v class beyond 2^53: no longer exactly summable, and
@@ -146,7 +146,12 @@ def run_case(rs, ctx):
     tol = 1e-9 if floaty else 1e-12
     sh = gen.Shadow(cfg)
     n_ops = int(rs.integers(4, 26))
-    pre = gen.gen_ops(rs, cfg, sh, int(rs.integers(0, 3)), ["add_arm", "remove_arm"])  # arm changes before first fit
+    if cfg["arms"]:
+        pre = gen.gen_ops(rs, cfg, sh, int(rs.integers(0, 3)), ["add_arm", "remove_arm"])  # arm changes before first fit
+    else:
+        # a bandit constructed with an empty arm list: every arm arrives through add_arm
+        pre = gen.gen_ops(rs, cfg, sh, int(rs.integers(1, 5)), ["add_arm"])
+        ctx.count("constructed_without_arms")
     ops = pre + gen.gen_ops(rs, cfg, sh, 1, ["fit"], rkind=rk) + gen.gen_ops(rs, cfg, sh, n_ops, KINDS, train_rows=(1, 12), rkind=rk)
     # a history (a log slice, a filtered batch) may be empty: fit([], []) still resets, partial_fit([], []) changes nothing
     for o in ops[len(pre) + 1:]:
